@@ -12,8 +12,8 @@ import (
 	"com.tuntun.rangers/node/src/middleware/types"
 	"com.tuntun.rangers/node/src/zzverif/node"
 	"com.tuntun.rangers/node/src/zzverif/runner"
-	"com.tuntun.rangers/node/src/zzverif/simmap"
 	"com.tuntun.rangers/node/src/zzverif/simdisk"
+	"com.tuntun.rangers/node/src/zzverif/simmap"
 	"com.tuntun.rangers/node/src/zzverif/simrt"
 	"com.tuntun.rangers/node/src/zzverif/simsched"
 )
@@ -27,7 +27,7 @@ import (
 // additionally enumerated from disk images taken at the operation boundaries.
 
 type c19Op struct {
-	K   string `json:"k"` // add addbad remove restart
+	K   string `json:"k"`             // add addbad remove restart
 	G   int    `json:"g,omitempty"`   // group number (id = H("g"+G))
 	Bad string `json:"bad,omitempty"` // pre | parent | dup
 	G2  int    `json:"g2,omitempty"`  // addpair: second group
@@ -55,7 +55,7 @@ func (c19) Budget(tier string) runner.Budget {
 
 func (c19) Describe() runner.Description {
 	return runner.Description{
-		Rule: "each history is 3..40 seeded group-chain operations on a booted node: AddGroup(valid successor; its unauthenticated GroupHeight wire field holds the right value, 0, a stale position, a later position or 2^64-1), AddGroup(wrong predecessor / unknown parent / duplicate / a valid successor whose begin time cannot be encoded by the store), two different valid successors submitted concurrently under the seeded scheduler (exactly one may be accepted), remove-last-group (the operation a group-fork switch performs), restart. After every operation the invariant is checked on the live node AND (fault enumeration, exhaustive per history) on a fresh incarnation booted from the disk image taken right after that operation: LastGroup reachable from genesis by predecessor links, Count = list length, GetGroupByHeight(i) = i-th element for i<count and nil for i in [count,count+3], every listed group retrievable by id, removed ones not, GetSyncGroupsById = next <=5 successors; compared with a slice reference model. evaluations = invariant evaluations (live + restarted). distinct_nontrivial = distinct op-kind sequences containing a remove. Crash points INSIDE save/remove (between their individual store writes) are also booted; the property's quantifier only covers restarts after operations, so those images are only required to boot, and their self-consistency is reported as probes (midop_*), not as violations.",
+		Rule:        "each history is 3..40 seeded group-chain operations on a booted node: AddGroup(valid successor; its unauthenticated GroupHeight wire field holds the right value, 0, a stale position, a later position or 2^64-1), AddGroup(wrong predecessor / unknown parent / duplicate / a valid successor whose begin time cannot be encoded by the store), two different valid successors submitted concurrently under the seeded scheduler (exactly one may be accepted), remove-last-group (the operation a group-fork switch performs), restart. After every operation the invariant is checked on the live node AND (fault enumeration, exhaustive per history) on a fresh incarnation booted from the disk image taken right after that operation: LastGroup reachable from genesis by predecessor links, Count = list length, GetGroupByHeight(i) = i-th element for i<count and nil for i in [count,count+3], every listed group retrievable by id, removed ones not, GetSyncGroupsById = next <=5 successors; compared with a slice reference model. evaluations = invariant evaluations (live + restarted). distinct_nontrivial = distinct op-kind sequences containing a remove. Crash points INSIDE save/remove (between their individual store writes) are also booted; the property's quantifier only covers restarts after operations, so those images are only required to boot, and their self-consistency is reported as probes (midop_*), not as violations.",
 		Assumptions: []string{"stub ConsensusHelper.CheckGroup accepts every group; group signatures are not what C19 is about", "the sqlite group index (second store) is not read by the oracle and starts empty in every incarnation"},
 		Real:        []string{"core/groupchain.go (AddGroup, save, remove, lookups, iterator, sync lookups)", "middleware/db + goleveldb on simulated storage", "middleware/mysql (sqlite group index)", "node boot: middleware, service, core init"},
 		Stub:        []string{"ConsensusHelper", "network (not started)", "NTP clock"},
